@@ -432,6 +432,8 @@ func c07Blocks(r *core.Run, p *core.Program) {
 	})
 	blockdbFlushDrains(r, p, rule)
 	c16ResumePosition(r, p, rule)
+	// a flag update touches only the record's own byte and puts the append position back (shared with C16)
+	c16FlagUpdateOrder(r, p, rule)
 	if wo := p.Func("lib/chain.(*BlockDB).writeOne"); wo != nil {
 		c16RecordedCurrent(r, p, rule, wo)
 	}
